@@ -228,6 +228,15 @@ class Env:
     def build_objects(self, spec):
         obj = self.objects
         self.junk()
+        if spec.get('subclassed'):
+            # the program derives its own classes from the library's (adding nothing)
+            def derive(cls):
+                return type('My' + cls.__name__, (cls,), {})
+            Flag, Tracked, Lock, Queue, Channel, Capacities, Resources, Pipe, UnboundedPipe = map(
+                derive, _LIBRARY_CLASSES)
+        else:
+            Flag, Tracked, Lock, Queue, Channel, Capacities, Resources, Pipe, UnboundedPipe = \
+                _LIBRARY_CLASSES
         obj['flags'] = []
         for _ in range(spec.get('flags', 0)):
             obj['flags'].append(Flag())
@@ -391,6 +400,9 @@ def count_steps(program):
                 total += 1 + walk(step['child']['steps'])
         return total
     return sum(1 + walk(root['steps']) for root in program['roots'])
+
+
+_LIBRARY_CLASSES = (Flag, Tracked, Lock, Queue, Channel, Capacities, Resources, Pipe, UnboundedPipe)
 
 
 # -- notifications -------------------------------------------------------------------
